@@ -123,7 +123,9 @@ func (p *Prog) ipathsD(f *ssa.Function, depth int, stack map[*ssa.Function]bool)
 					ev := mkEvent(&x.Call, nil, in, f)
 					ev.Deferred = true
 					for i := range cur {
-						cur[i].Events = append(cur[i].Events, ev)
+						if cur[i].Exit == "" {
+							cur[i].Events = append(cur[i].Events, ev)
+						}
 					}
 				case *ssa.Call:
 					callee := calleeOf(&x.Call)
@@ -137,6 +139,10 @@ func (p *Prog) ipathsD(f *ssa.Function, depth int, stack map[*ssa.Function]bool)
 							var next []ipath
 							ck := sk(x)
 							for _, c0 := range cur {
+								if c0.Exit != "" {
+									next = append(next, c0) // already ended (a spliced helper panicked)
+									continue
+								}
 								for _, sp := range sub {
 									n := ipath{Rels: c0.Rels.clone(), Events: append([]ievent{}, c0.Events...), Trace: c0.Trace}
 									for k := range sp.Rels {
@@ -180,7 +186,9 @@ func (p *Prog) ipathsD(f *ssa.Function, depth int, stack map[*ssa.Function]bool)
 					}
 					ev := mkEvent(&x.Call, x, in, f)
 					for i := range cur {
-						cur[i].Events = append(cur[i].Events, ev)
+						if cur[i].Exit == "" {
+							cur[i].Events = append(cur[i].Events, ev)
+						}
 					}
 					if callee != nil && p.NoReturn(callee) {
 						for i := range cur {
